@@ -2,8 +2,8 @@
    serializer half (Proofs/RoundtripGen.v), the meaning of the events (Proofs/RoundtripTree.v)
    and the parser half (Proofs/RoundtripParse.v). *)
 From Coq Require Import NArith ZArith List Bool Lia Arith.
-From XV Require Import Base.Str Base.Eqb Base.PyInt Spec.XmlNs Model.Bind Model.WriterBridge Spec.Fits
-  Proofs.RoundtripBase Proofs.RoundtripGen Proofs.RoundtripTree Proofs.RoundtripParse.
+From XV Require Import Base.Str Base.Eqb Base.PyInt Spec.XmlNs Model.Bind Model.WriterBridge Spec.Fits Model.RoundtripCorr
+  Proofs.RoundtripBase Proofs.RoundtripGen Proofs.RoundtripTree Proofs.RoundtripParse Proofs.RoundtripPump.
 From XV Require Model.EventGen Model.Parser.
 Import ListNotations.
 Open Scope N_scope.
@@ -74,5 +74,31 @@ Section Main.
       unfold EventGen.gen_fuel. pose proof (odepth_le_vdepth (VObj cl fs)). lia.
     - apply (events_mean c u ok py_isspace ign n cl o Hw Hfit).
     - intros k pevs Hr. apply (parse_reads n k cl o pevs Hwf Hfit Hr).
+  Qed.
+
+  Lemma generate_ok : forall n cl o,
+    wf_model u cl = true -> fits n cl o = true ->
+    EventGen.generate ign c u o = EventGen.Ok (bflat (gobj c u ign n None o)).
+  Proof.
+    intros n cl o Hwf Hfit. pose proof (wf_model_wfr cl Hwf) as Hw.
+    assert (Ho : exists fs, o = VObj cl fs).
+    { destruct n; [discriminate|]. destruct (fits_inv c u ok py_isspace n cl o Hfit) as [fs [_ [-> _]]]. eauto. }
+    destruct Ho as [fs ->]. unfold EventGen.generate, EventGen.generate_with.
+    apply (run_obj c u ok py_isspace ign n cl _ None Hw Hfit).
+    unfold EventGen.gen_fuel. pose proof (odepth_le_vdepth (VObj cl fs)). lia.
+  Qed.
+
+  (* the same with the canonical reader stream: the statement in the form
+     parse (pump (itree_of_events (generate ...))) = Ok o [] *)
+  Theorem roundtrip_pump : forall n cl o,
+    wf_model u cl = true -> fits n cl o = true ->
+    exists evs,
+      EventGen.generate ign c u o = EventGen.Ok evs
+      /\ Parser.parse cfg c u (Some cl) (pump (itree_of_events (map (of_wevent c) evs))) = Parser.Ok o [].
+  Proof.
+    intros n cl o Hwf Hfit. pose proof (wf_model_wfr cl Hwf) as Hw.
+    exists (bflat (gobj c u ign n None o)). split; [apply (generate_ok n cl o Hwf Hfit)|].
+    rewrite (events_mean c u ok py_isspace ign n cl o Hw Hfit). cbn [pump]. unfold Parser.parse.
+    apply (parse_reads n _ cl o _ Hwf Hfit). apply reads_pump. apply (plain_obj c u ok ign n cl o None Hw Hfit).
   Qed.
 End Main.
